@@ -14,7 +14,7 @@ import (
 func init() {
 	register(&Prop{
 		ID:          "C17",
-		Explanation: "PARTIAL claim — decides four structural conditions of faithful proxying, not routing or byte fidelity as behaviour: (1) stores into the request line, host and body of an *http.Request (Method, URL, RequestURI, Host, Body, and fields of the URL reached from a request) occur, in production code, only in pkg/upstream (rewrite, director, unix round-tripper) or on values that are clones/new requests; (2) between the outer handler and the upstream no production code reachable from the pass path parses or consumes the body (ParseForm/FormValue/PostFormValue/ParseMultipartForm/MultipartReader/Body reads) outside the reviewed login endpoints; (3) the registration-order comparator puts a rewrite rule before a plain one only when the other has no rewrite target and otherwise orders by longer path, on every true-returning path; (4) the rewrite query merge only appends rewritten values to the client's query (url.Values.Add), never overwrites or replaces entries. Added during the build: (5) every ResponseWriter wrapper of the module relays WriteHeader/Write to the wrapped writer exactly once with the caller's argument on every path; (6) the upstream-host director is installed only for an explicit pass-host-header=false and is the only writer of Request.Host in pkg/upstream (one reviewed exception: the unix round tripper fills an empty Host); (7) the director calls the original director and then sets URL.Opaque to the same request's RequestURI and clears RawQuery, every reverse proxy returned has that director installed, the proxy's own router is NewRouter().UseEncodedPath() and the upstream router uses encoded-path matching exactly when proxyRawPath is set. Round 3: flattenHeaders writes back the join of exactly the values it ranged over (8). Round 4: the structured configuration's upstreamConfig reaches Options.UpstreamServers as one value (proxyRawPath included) and a legacy --upstream is routed under the decoded path (or fragment) of its URL (R9).",
+		Explanation: "PARTIAL claim — decides four structural conditions of faithful proxying, not routing or byte fidelity as behaviour: (1) stores into the request line, host and body of an *http.Request (Method, URL, RequestURI, Host, Body, and fields of the URL reached from a request) occur, in production code, only in pkg/upstream (rewrite, director, unix round-tripper) or on values that are clones/new requests; (2) between the outer handler and the upstream no production code reachable from the pass path parses or consumes the body (ParseForm/FormValue/PostFormValue/ParseMultipartForm/MultipartReader/Body reads) outside the reviewed login endpoints; (3) the registration-order comparator puts a rewrite rule before a plain one only when the other has no rewrite target and otherwise orders by longer path, on every true-returning path; (4) the rewrite query merge only appends rewritten values to the client's query (url.Values.Add), never overwrites or replaces entries. Added during the build: (5) every ResponseWriter wrapper of the module relays WriteHeader/Write to the wrapped writer exactly once with the caller's argument on every path; (6) the upstream-host director is installed only for an explicit pass-host-header=false and is the only writer of Request.Host in pkg/upstream (one reviewed exception: the unix round tripper fills an empty Host); (7) the director calls the original director and then sets URL.Opaque to the same request's RequestURI and clears RawQuery, every reverse proxy returned has that director installed, the proxy's own router is NewRouter().UseEncodedPath() and the upstream router uses encoded-path matching exactly when proxyRawPath is set. Round 3: flattenHeaders writes back the join of exactly the values it ranged over (8). Round 4: the structured configuration's upstreamConfig reaches Options.UpstreamServers as one value (proxyRawPath included) and a legacy --upstream is routed under the decoded path (or fragment) of its URL (R9). Round 5: the per-upstream handler objects hand every request to the handler they wrap with the caller's writer and request, and never answer themselves (R10).",
 		NotDecided:  "longest-prefix routing of gorilla/mux over all paths, percent-encoding fidelity through RequestURI/URL.Path/RawPath, response relay by httputil.ReverseProxy, header pass-through: behaviour of third-party routers over all inputs.",
 		Run:         runC17,
 	})
@@ -34,6 +34,8 @@ func runC17(c *Ctx) {
 	runC17R7(c, "R7-request-target-verbatim")
 	r.Rule("R9-upstream-config-verbatim", "the structured configuration's upstreamConfig reaches Options.UpstreamServers as a whole (proxyRawPath included); a legacy --upstream is routed under the decoded path of its URL", 2)
 	runC17R9(c, "R9-upstream-config-verbatim")
+	r.Rule("R10-upstream-handlers-delegate", "the per-upstream handlers (file server, HTTP/WebSocket proxy) hand every request to the handler they wrap, with the caller's writer and request, and never answer themselves", 2)
+	runC17R10(c, "R10-upstream-handlers-delegate")
 	r.Rule("R8-flatten-lossless", "flattenHeaders writes back the join of exactly the values it ranged over", 1)
 	runC17R8(c, "R8-flatten-lossless")
 
@@ -727,5 +729,69 @@ func runC17R9(c *Ctx, rule string) {
 	}
 	if n == 0 {
 		c.R.Unknown(rule, "legacy-upstream-path|none", c.P.Pos(conv.Pos()), "the legacy converter does not set Upstream.Path")
+	}
+}
+
+// runC17R10: once the router has picked an upstream, its handler object (fileServer, httpUpstreamProxy) only records
+// the upstream's id, signs the request where configured, and hands (rw, req) to the handler it wraps. On every return
+// path of their ServeHTTP a wrapped handler — a field of the receiver — was invoked with the function's own writer
+// and request, and the function itself writes no answer (no http.Error, WriteHeader or Write): a guard that answers
+// 4xx here replaces the upstream's status and body for requests the upstream would have served.
+func runC17R10(c *Ctx, rule string) {
+	for _, name := range []string{"(*pkg/upstream.fileServer).ServeHTTP", "(*pkg/upstream.httpUpstreamProxy).ServeHTTP"} {
+		fn := c.Fn(rule, name)
+		if fn == nil || len(fn.Params) < 3 {
+			continue
+		}
+		recv, rw, req := fn.Params[0], fn.Params[1], fn.Params[2]
+		key := "delegates|" + fnKey(fn)
+		n, bad := 0, false
+		c.WalkShallow(rule, fn, func(p *walk.Path) {
+			if _, ok := p.Exit.(*ssa.Return); !ok || bad {
+				return
+			}
+			n++
+			delegated := false
+			for _, cl := range p.Calls() {
+				if cl.C.IsInvoke() {
+					switch cl.C.Method.Name() {
+					case "ServeHTTP":
+						hv := p.Resolve(p.StepOp(cl.C.Value, cl.Step))
+						ld, ok := hv.V.(*ssa.UnOp)
+						if !ok {
+							continue
+						}
+						fa, ok := ld.X.(*ssa.FieldAddr)
+						if !ok || p.Resolve(p.Op(fa.X, p.Op(fa, hv))).V != ssa.Value(recv) {
+							continue
+						}
+						if len(cl.C.Args) == 2 && p.Resolve(p.StepOp(cl.C.Args[0], cl.Step)).V == ssa.Value(rw) && p.Resolve(p.StepOp(cl.C.Args[1], cl.Step)).V == ssa.Value(req) {
+							delegated = true
+						}
+					case "WriteHeader", "Write":
+						if p.Resolve(p.StepOp(cl.C.Value, cl.Step)).V == ssa.Value(rw) {
+							bad = true
+							c.bad(rule, key, cl.In, "the upstream handler object writes an answer of its own: the upstream's status and body are replaced", p, cl.Idx)
+							return
+						}
+					}
+					continue
+				}
+				if sc := cl.C.StaticCallee(); sc != nil && (sc.String() == "net/http.Error" || sc.String() == "net/http.Redirect" || sc.String() == "net/http.NotFound") {
+					bad = true
+					c.bad(rule, key, cl.In, "the upstream handler object answers "+sc.Name()+" itself: requests the upstream would have served get this answer instead of the upstream's status and body", p, cl.Idx)
+					return
+				}
+			}
+			if !delegated {
+				bad = true
+				c.bad(rule, key, p.Exit, "the upstream handler object returns on a path that never hands (rw, req) to the handler it wraps", p, p.End())
+			}
+		})
+		if !bad && n > 0 {
+			c.R.OK(rule, key, c.P.Pos(fn.Pos()), sprintf("%d return path(s), each through the wrapped handler with the caller's writer and request", n))
+		} else if !bad {
+			c.R.Unknown(rule, key, c.P.Pos(fn.Pos()), "no return path found")
+		}
 	}
 }
